@@ -557,8 +557,10 @@ struct World
       RV &r = *vs.sut;
       std::vector<T> const before = vs.model;
       std::size_t const pos = op.getu("pos") % (before.size() + 1);
-      std::size_t const cnt = op.getu("n") % (12U * scale);
       long kind = static_cast<long>(op.getu("k") % 4);
+      // (a single-pass source is inserted element by element, each one shifting the tail: counts
+      // stay small in huge runs, the check is about behaviour, not about quadratic running time)
+      std::size_t const cnt = op.getu("n") % (kind == 2 && scale > 64 ? 64U : 12U * scale);
       std::vector<T> src;
       if (kind == 3)
       {
@@ -1161,6 +1163,8 @@ struct World
     scale = plan.cfg.getu("scale", 1) == 0 ? 1 : plan.cfg.getu("scale", 1);
     if (scale > 1)
       ctx.probe("large_counts_run");
+    if (scale >= 65536)
+      ctx.probe("huge_counts_run");
     unsigned effective = 0;
     for (sim::Op const &op : plan.ops)
     {
@@ -1203,7 +1207,10 @@ void generate(sim::Rng &rng, sim::Plan &p, bool thorough)
   // swarm: most runs use small counts; some 8 times, a few 64 times larger ones (growth policy and
   // reallocation at sizes of several kilobytes)
   unsigned const sc = static_cast<unsigned>(rng.below(16));
-  long const scale = sc == 0 ? 64 : (sc <= 2 ? 8 : 1);
+  // ... and one run in 300 is huge (blocks beyond a megabyte, where an implementation may switch
+  // to another growth policy); those runs are short
+  bool const huge = rng.chance(1, 300);
+  long const scale = huge ? 65536 : (sc == 0 ? 64 : (sc <= 2 ? 8 : 1));
   bool const big = scale != 1;
   if (big)
     p.cfg.set("scale", scale);
@@ -1240,7 +1247,7 @@ void generate(sim::Rng &rng, sim::Plan &p, bool thorough)
     }
   if (bag.empty())
     bag.push_back("push_back");
-  unsigned const len = static_cast<unsigned>(rng.range(1, 60));
+  unsigned const len = static_cast<unsigned>(huge ? rng.range(2, 8) : rng.range(1, 60));
   // start from every constructor
   {
     static char const *const ctors[] = {"ctor_default", "ctor_alloc", "ctor_n", "ctor_range", "ctor_il"};
